@@ -32,6 +32,14 @@ class PersistentThreadWorker(PersistentWorker, ThreadWorker):
     # Implement interface
     #
 
+    def is_alive(self):
+        alive = super().is_alive()
+        if not alive and self._started and not self._cleaned_up and not self.is_child:
+            # the child is gone but could not finish its clean up (e.g. it has been terminated on its way in or out),
+            # finish it on its behalf so that whoever waits for results is told that no more will come
+            self._cleanup()
+        return alive
+
     def wait(self, timeout=None):
         ''' Closes the input queue (see `close`) and waits for the underlying process
             to finish. This can potentially cause deadlock if the underlaying queues are
@@ -46,7 +54,12 @@ class PersistentThreadWorker(PersistentWorker, ThreadWorker):
         alive = self._child.is_alive()
         if not alive:
             self._dead = True
-        return not alive
+        return not self.is_alive()
+
+    def terminate(self, *args, **kwargs):
+        ret = super().terminate(*args, **kwargs)
+        self.is_alive()
+        return ret
 
     def close(self):
         ''' Informs the child process that no more input data is expected.
